@@ -22,8 +22,22 @@ MANIFEST = {
 }
 
 VLEF = 'thermosteam/equilibrium/vle.py'
-TSINK = re.compile(r'(^|\.)_?thermal_condition\.T$')
-PSINK = re.compile(r'(^|\.)_?thermal_condition\.P$')
+class _Sink:
+    """(^|\\.)_?thermal_condition\\.X$  decided with endswith (target texts can be tens of kilobytes after inlining)"""
+    def __init__(self, letter):
+        self.tails = ('thermal_condition.' + letter, '_thermal_condition.' + letter)
+
+    def search(self, t):
+        for tail in self.tails:
+            if t.endswith(tail):
+                head = t[:-len(tail)]
+                if head == '' or head.endswith('.'):
+                    return True
+        return None
+
+
+TSINK = _Sink('T')
+PSINK = _Sink('P')
 
 KIND_ATOM = [
     (re.compile(r'^T$'), 'T'), (re.compile(r'^P$'), 'P'),
@@ -40,11 +54,27 @@ KIND_ATOM = [
 ]
 
 
+_KIND_MEMO = {}
+
+
 def atom_kind(a):
+    # memoised: the same (possibly very long, after inlining) atom texts recur on thousands of paths
+    if a in _KIND_MEMO:
+        return _KIND_MEMO[a]
+    out = None
     for rx, k in KIND_ATOM:
+        if rx.pattern.startswith('^\\(.*\\.solve_'):
+            # linear-time form of  ^\(.*\.solve_X\(.*\)\)\[0\]$
+            names = ('.solve_Ty(', '.solve_Tx(') if 'Ty|Tx' in rx.pattern else ('.solve_Py(', '.solve_Px(')
+            if a.startswith('(') and a.endswith('))[0]') and any(n in a for n in names):
+                out = k
+                break
+            continue
         if rx.search(a):
-            return k
-    return None
+            out = k
+            break
+    _KIND_MEMO[a] = out
+    return out
 
 
 def form_kind(f):
